@@ -1,5 +1,6 @@
 ---- MODULE MC_t_match_fm ----
 EXTENDS MCOFWire
 TheCases == MatchIn("flow_mod", MFlagsAll(0) \cup MBits(BitsT) \cup MTypes(0) \cup MVals(0), "t")
+TheRCases == {}
 TheAround == AroundBoth
 ====
